@@ -15,15 +15,25 @@ Definition faithful (g cg : graph) : Prop :=
 Definition onto_1N (g cg : graph) : Prop :=
   Permutation (node_ids cg) (map N.of_nat (seq 1 (length (gnodes g)))).
 
-(** well-formed simple undirected graph (lib/LGraph.v) *)
+(** well-formed simple undirected graph (lib/LGraph.v): distinct node ids, edges join two distinct nodes,
+    at most one edge per unordered pair — what a networkx.Graph without self-loops always is *)
 Definition wfg (g : graph) : Prop := wf g.
 
-(** the attributes the signature covers *)
+(** element symbols: ASCII letters, digits, '*' (no quote, separator or bracket characters) *)
+Definition elc (c : N) : bool :=
+  ((48 <=? c) && (c <=? 57) || (65 <=? c) && (c <=? 90) || (97 <=? c) && (c <=? 122) || (c =? 42))%N.
+Definition el_ok (s : str) : Prop := forallb elc s = true.
+Definition els_ok (g : graph) : Prop := forall p, In p (gnodes g) -> el_ok (el (snd p)).
+
+(** the attributes the signature covers: (element, charge, aromatic, hcount) and (order, standard_order);
+    a missing standard_order is rendered differently from 0.0 by the signature and by the nauty label, so
+    presence is part of the covered value *)
 Definition ncov (a : nattr) : list N * Z * bool * Z := (el a, ch a, ar a, hc a).
-Definition ecov (a : eattr) : Z * Z := (eo a, std0 a).
-Definition cov_nodes (g : graph) : list (N * (list N * Z * bool * Z)) := map (fun p => (fst p, ncov (snd p))) (gnodes g).
-Definition cov_edges (g : graph) : list (N * N * (Z * Z)) :=
-  map (fun e : N * N * eattr => let '(u, v, a) := e in (N.min u v, N.max u v, ecov a)) (gedges g).
+Definition ecov (a : eattr) : Z * option Z := (eo a, es a).
+Definition covn (p : N * nattr) : N * (list N * Z * bool * Z) := (fst p, ncov (snd p)).
+Definition cove (e : N * N * eattr) : N * N * (Z * option Z) := let '(u, v, a) := e in (N.min u v, N.max u v, ecov a).
+Definition cov_nodes (g : graph) : list (N * (list N * Z * bool * Z)) := map covn (gnodes g).
+Definition cov_edges (g : graph) : list (N * N * (Z * option Z)) := map cove (gedges g).
 (** same graph on the covered attributes: same labelled node set, same labelled set of unordered edges *)
 Definition geq_cov (g h : graph) : Prop :=
   Permutation (cov_nodes g) (cov_nodes h) /\ Permutation (cov_edges g) (cov_edges h).
@@ -35,3 +45,13 @@ Definition iso_cov (g h : graph) : Prop :=
 Definition flip (e : N * N * eattr) : N * N * eattr := let '(u, v, a) := e in (N.min u v, N.max u v, a).
 Definition geq (g h : graph) : Prop :=
   Permutation (gnodes g) (gnodes h) /\ Permutation (map flip (gedges g)) (map flip (gedges h)).
+
+(** value objects: SynGraph / CanonicalGraph compare by the digest of the serialised canonical graph;
+    a SynRule compares the signatures of (left, right) and of the reaction-centre graph (after repair 6662066).
+    [ser] is the serialisation of the chosen back-end (ser_generic / ser_rank r / ser_nauty). *)
+Definition syngraph_eq {D} (digest : str -> D) (ser : graph -> str) (g h : graph) : Prop :=
+  digest (ser g) = digest (ser h).
+Record rule := Rule { r_rc : graph; r_left : graph; r_right : graph }.
+Definition synrule_eq {D} (digest : str -> D) (ser : graph -> str) (a b : rule) : Prop :=
+  (digest (ser (r_left a)), digest (ser (r_right a))) = (digest (ser (r_left b)), digest (ser (r_right b)))
+  /\ digest (ser (r_rc a)) = digest (ser (r_rc b)).
